@@ -132,6 +132,38 @@ def lower_sweep_points(rng, n_random):
     return sorted(p for p in pts if 0 <= p < 0x110000 and not 0xD800 <= p <= 0xDFFF)
 
 
+def table_boundaries():
+    """Boundaries (lo-1, lo, hi, hi+1) of every range of the generated tables coq/Gen/WordTable.v and the Final_Sigma classes of
+    coq/Gen/LowerTable.v (read as text; the files exist once the build stage has run)."""
+    import os, re
+    gen = os.path.join(os.path.dirname(os.path.abspath(__file__)), "..", "coq", "Gen")
+    pts = set()
+    for f, names in (("WordTable.v", ["word_ranges", "digit_ranges"]), ("LowerTable.v", ["sig_cased_ranges", "sig_ign_ranges"])):
+        try: src = open(os.path.join(gen, f)).read()
+        except OSError: continue
+        for name in names:
+            m = re.search(r"Definition %s :[^\n]*:= \[(.*?)\n\]\." % name, src, re.S)
+            for t in re.findall(r"\(([0-9, ]+)\)", m.group(1) if m else ""):
+                lo, hi = [int(x) for x in t.split(",")][:2]
+                pts.update([lo - 1, lo, hi, hi + 1])
+    return sorted(p for p in pts if 0 <= p < 0x110000 and not 0xD800 <= p <= 0xDFFF)
+
+
+def category_sample(rng, per_cat, cats=("Nd", "Lu", "Ll", "Lt", "Lm", "Lo", "Nl", "No", "Mn", "Mc", "Me", "Pc", "Pd", "Sk", "Sm", "So", "Zs", "Cf", "Cn", "Co")):
+    """A sample of code points of each Unicode general category (as the harness interpreter classifies them; used only to pick inputs)."""
+    import unicodedata
+    by = {}
+    for cp in range(128, 0x110000):
+        if 0xD800 <= cp <= 0xDFFF: continue
+        c = unicodedata.category(chr(cp))
+        if c in cats: by.setdefault(c, []).append(cp)
+    out = []
+    for c in cats:
+        l = by.get(c, [])
+        out += l if len(l) <= per_cat else rng.sample(l, per_cat)
+    return out
+
+
 def exhaustive(alphabet, maxlen):
     for n in range(maxlen + 1):
         for t in itertools.product(alphabet, repeat=n):
